@@ -67,7 +67,7 @@ func c05Strip(s *gSpec) *gSpec {
 func TestVerif_C05_Mux(t *testing.T) {
 	r := kit.Start(t, "C05")
 	defer r.Finish()
-	r.Rule("part b: seeded HTTPServer specs with IP filters at server/rule/path level (and header conditions in half of them), cacheSize in {0,1,2,8,64}; histories of 40 requests drawn from a pool of 10 requests by 10 client addresses given via RemoteAddr / a public X-Forwarded-For / X-Real-IP; each request also goes to a twin mux whose spec has every filter removed; must-refuse (denied by the server filter, or by the rule/path filter of the route the twin picks): 4xx, handler never invoked, 403 when the twin finds a route; must-pass (no filter of the server, of any host-matching rule, or of the twin's path denies): identical to the twin; otherwise no verdict; distinct = (verdict class, level that denies, cache hit?, twin status)")
+	r.Rule("part b: seeded HTTPServer specs with IP filters at server/rule/path level (and header conditions in half of them), cacheSize in {0,1,2,8,64}; every third spec is a 'stacked' server: 2-3 rules whose host conditions (catch-all, exact, regexps) all accept the same host, most of them with their own rule-level filter, cacheSize>0, and a pool of 4 request shapes for that host each asked by 3 different clients, so that a route is first cached by a client the filters let through and then asked for by a client that an earlier host-matching rule (which does not own the path) denies; histories of 40 requests drawn from the pool, client addresses given via RemoteAddr / a public X-Forwarded-For / X-Real-IP; each request also goes to a twin mux whose spec has every filter removed and, when the cache is on, to a twin with the same filters but no cache; must-refuse (denied by the server filter, or by the rule/path filter of the route the twin picks): 4xx, handler never invoked, 403 when the twin finds a route; must-pass (no filter of the server, of any host-matching rule, or of the twin's path denies): identical to the twin; otherwise (denied only by the filter of another host-matching rule: whether that filter applies is left open) the outcome must not depend on the cache or on earlier requests, i.e. equal the cache-less twin's; distinct = (verdict class, level that denies, cache on?, cache entry found, twin status)")
 	r.Assume("client address = RemoteAddr host, or a single public X-Forwarded-For value, or X-Real-IP, as resolved by the realip library the server uses")
 	nSpecs := r.N(800, 24000)
 	sizes := []int{0, 0, 1, 2, 8, 64}
@@ -77,27 +77,52 @@ func TestVerif_C05_Mux(t *testing.T) {
 			continue
 		}
 		rng := r.CaseRand(i)
-		spec := genSpec(rng, genOpts{headers: i%2 == 1, ipf: true, maxRules: 3, maxPaths: 3})
-		if spec.IPF == nil && rng.Intn(2) == 0 {
-			spec.IPF = genIPF(rng)
+		stacked := i%3 == 2
+		var spec *gSpec
+		if stacked {
+			// several rules accept the same host; rule-level filters on most of them
+			spec = genStackedSpec(rng, genOpts{headers: i%2 == 1, ipf: true, maxRules: 3, maxPaths: 2})
+			spec.CacheSize = sizes[2+rng.Intn(len(sizes)-2)]
+		} else {
+			spec = genSpec(rng, genOpts{headers: i%2 == 1, ipf: true, maxRules: 3, maxPaths: 3})
+			if spec.IPF == nil && rng.Intn(2) == 0 {
+				spec.IPF = genIPF(rng)
+			}
+			spec.CacheSize = sizes[rng.Intn(len(sizes))]
 		}
-		spec.CacheSize = sizes[rng.Intn(len(sizes))]
 		twinSpec := c05Strip(spec)
 		r.Case(i, spec)
 		mapper := &recMapper{missing: missing}
 		m, err := buildMux(spec, mapper)
 		tw, err2 := buildMux(twinSpec, &recMapper{missing: missing})
+		// same filters, no cache: what the server does for a request without any history
+		// (built when the first request of the open class comes up)
+		var nc *mux
 		if err != nil || err2 != nil {
 			r.Count("spec_rejected", 1)
 			r.Note("spec rejected: %v %v", err, err2)
 			continue
 		}
 		pool := make([]gReq, 0, 12)
-		for k := 0; k < 8; k++ {
-			pool = append(pool, genReq(rng, spec, true))
+		nShapes, nOthers := 8, 3
+		if stacked {
+			nShapes, nOthers = 4, 8
 		}
-		for k := 0; k < 3; k++ { // same key, other client
-			v := pool[rng.Intn(len(pool))]
+		for k := 0; k < nShapes; k++ {
+			q := genReq(rng, spec, true)
+			if stacked {
+				q.Host = "a.com"
+				if rng.Intn(4) == 0 {
+					q.Host = "a.com:8080"
+				}
+			}
+			pool = append(pool, q)
+		}
+		for k := 0; k < nOthers; k++ { // same key, other client
+			v := pool[k%nShapes]
+			if !stacked {
+				v = pool[rng.Intn(len(pool))]
+			}
 			v.Headers = append([][2]string{}, v.Headers...)
 			kept := v.Headers[:0]
 			for _, kv := range v.Headers {
@@ -114,17 +139,6 @@ func TestVerif_C05_Mux(t *testing.T) {
 			q := pool[rng.Intn(len(pool))]
 			c := q.clientIP()
 			ref := refRoute(twinSpec, &q, missing)
-			var got, twin gOut
-			in := map[string]interface{}{"spec": spec, "req": q}
-			before := mapper.Calls()
-			if r.Guard("C05:mux", in, func() { got = serve(m, &q) }) {
-				continue
-			}
-			called := mapper.Calls() - before
-			if r.Guard("C05:twin", in, func() { twin = serve(tw, &q) }) {
-				continue
-			}
-			r.Eval(1)
 			routeExists := ref.Rule >= 0
 			deniedServer := c05Denied(spec.IPF, c)
 			deniedRoute := routeExists && (c05Denied(spec.Rules[ref.Rule].IPF, c) || c05Denied(spec.Rules[ref.Rule].Paths[ref.PathIdx].IPF, c))
@@ -143,9 +157,60 @@ func TestVerif_C05_Mux(t *testing.T) {
 			case !deniedAnyVisited:
 				class = "must-pass"
 			}
-			r.Cover(fmt.Sprintf("mux/%s/%s/cache=%v/twin=%d", class, level, spec.CacheSize > 0, twin.Status))
+			// denied by the rule-level filter of a host-matching rule in front of the one that owns
+			// the route (or of any host-matching rule when there is no route)
+			deniedEarlierRule := false
+			for ri := range spec.Rules {
+				if routeExists && ri >= ref.Rule {
+					break
+				}
+				if ok, _ := refHostMatch(&spec.Rules[ri], q.Host); ok && c05Denied(spec.Rules[ri].IPF, c) {
+					deniedEarlierRule = true
+				}
+			}
+			if class == "no-verdict" {
+				level = "other-host-matching-rule"
+				if deniedEarlierRule {
+					level = "earlier-host-matching-rule"
+				}
+			}
+			var got, twin, nocache gOut
+			in := map[string]interface{}{"spec": spec, "req": q}
+			// what the route cache holds for this request's key just before it is served (only
+			// looked at for the open class)
+			entry := "-"
+			if class == "no-verdict" && spec.CacheSize > 0 && nc == nil {
+				ncSpec := *spec
+				ncSpec.CacheSize = 0
+				var err3 error
+				if nc, err3 = buildMux(&ncSpec, &recMapper{missing: missing}); err3 != nil {
+					r.Inconclusive(fmt.Sprintf("cache-less twin of an accepted spec rejected: %v", err3))
+					nc = nil
+				}
+			}
+			if class == "no-verdict" && nc != nil {
+				entry = "none"
+				if hit, kind := muxCacheProbe(m, &q); hit {
+					entry = kind
+				}
+			}
+			before := mapper.Calls()
+			if r.Guard("C05:mux", in, func() { got = serve(m, &q) }) {
+				continue
+			}
+			called := mapper.Calls() - before
+			if r.Guard("C05:twin", in, func() { twin = serve(tw, &q) }) {
+				continue
+			}
+			if class == "no-verdict" && nc != nil {
+				if r.Guard("C05:nocache", in, func() { nocache = serve(nc, &q) }) {
+					continue
+				}
+			}
+			r.Eval(1)
+			r.Cover(fmt.Sprintf("mux/%s/%s/cache=%v/entry=%s/twin=%d", class, level, spec.CacheSize > 0, entry, twin.Status))
 			r.Count("class_"+class, 1)
-			trace = append(trace, map[string]interface{}{"req": q, "client": c, "got": got, "twin": twin, "class": class})
+			trace = append(trace, map[string]interface{}{"req": q, "client": c, "got": got, "twin": twin, "class": class, "cache_entry": entry})
 			bad := ""
 			switch class {
 			case "must-refuse":
@@ -165,6 +230,24 @@ func TestVerif_C05_Mux(t *testing.T) {
 				if twin.Status == 200 {
 					r.Count("allowed_routed_200", 1)
 				}
+			case "no-verdict":
+				// Whether the filter of a host-matching rule that does not own the route applies is
+				// left open; but the answer may not depend on the cache or on who asked before.
+				if nc == nil {
+					break
+				}
+				r.Count("open_case_compared_with_cacheless_server", 1)
+				if entry == "route" && deniedEarlierRule && routeExists {
+					// an earlier request put this route into the cache (it was let through), now a
+					// client that an earlier host-matching rule denies asks for the same key
+					r.Count("open_case_cached_route_asked_by_client_an_earlier_rule_denies", 1)
+				}
+				if entry != "none" && entry != "route" && deniedEarlierRule {
+					r.Count("open_case_cached_"+entry+"_asked_by_client_a_host_matching_rule_denies", 1)
+				}
+				if got.Status != nocache.Status || got.Backend != nocache.Backend || got.Path != nocache.Path {
+					bad = fmt.Sprintf("host-matching-rule-filter:outcome-depends-on-cache-history:nocache%d-cache%d:cache-entry=%s", nocache.Status, got.Status, entry)
+				}
 			}
 			if bad != "" {
 				tail := trace
@@ -181,10 +264,15 @@ func TestVerif_C05_Mux(t *testing.T) {
 		}
 		m.close()
 		tw.close()
+		if nc != nil {
+			nc.close()
+		}
 	}
 	r.Require("class_must-refuse", 1)
 	r.Require("class_must-pass", 1)
 	r.Require("allowed_routed_200", 1)
+	r.Require("open_case_compared_with_cacheless_server", 1)
+	r.Require("open_case_cached_route_asked_by_client_an_earlier_rule_denies", 1)
 }
 
 func minIntC05(a, b int) int {
